@@ -83,7 +83,15 @@ def one_run(seed, n_queue, n_direct_seqs):
             k += 1
         if not start_first:
             tasks.append(asyncio.ensure_future(io.setup(adapter, None)))
-        total = n_queue + sum(len(s) for s in direct)
+        if n_queue > 50:
+            # a backlog that keeps being fed while it drains: further messages are queued at instants of their own while
+            # earlier ones are still waiting behind the socket's latency
+            for j in range(60):
+                await asyncio.sleep(rng.choice((0, 0, 1e-6, 2e-6, 3e-6)))
+                msg = [b"q%d" % (n_queue + j)]
+                queued.append(msg)
+                adapter.add_message_to_stream(msg)
+        total = len(queued) + sum(len(s) for s in direct)
         for _ in range(4000):
             if len(writes) >= total:
                 break
@@ -204,6 +212,8 @@ def run(tier, seed, drv):
     for i in range(150 if tier == "quick" else 2000):
         sd = rng.randrange(1 << 30)
         nq, nd = rng.randrange(0, 7), rng.randrange(0, 4)
+        if i % 25 == 7:
+            nq = rng.choice((70, 130, 300))   # a backlog: many messages queued while the socket is slow
         r, writes, calls, queued, direct = one_run(sd, nq, nd)
         case = {"seed": sd, "n_queue": nq, "n_direct": nd}
         res.case(str(case), nontrivial=nq + nd > 1, sample={"case": case, "writes": [[p.decode("latin1") for p in w] for w in writes][:6], "factory_calls": calls} if len(res.samples) < 2 and nq and nd else None)
